@@ -18,6 +18,7 @@ def specs(tier):
     S = [("rz", gridlab.tokamak_spec("lsn", fpol="linear", extract=ex)),                          # orthogonal, bpsign = -1, varying fpol
          ("rz", gridlab.tokamak_spec("ldn", fpol="linear", extract=ex)),                          # orthogonal, bpsign = +1
          ("rz", gridlab.tokamak_spec("cdn", fpol="linear", options={"orthogonal": False}, extract=ex)),  # non-orthogonal
+         ("rz", gridlab.tokamak_spec("ldn", fpol="linear", options={"orthogonal": False}, extract=ex)),  # non-orthogonal with bpsign = +1
          ("rz", gridlab.tokamak_spec("lsn", fpol="linear", options={"cap_Bp_ylow_xpoint": True}, extract=ex)),  # option that touches Bpxy
          ("rz", gridlab.tokamak_spec("lsn", fpol="linear", options={"psi_interpolation_method": "dct"}, extract=ex)),  # the other interpolant
          ("rz", gridlab.tokamak_spec("lsn", fpol="linear", options={"reverse_Bt": True}, extract=ex)),  # sign options with a varying fpol
@@ -35,7 +36,7 @@ def specs(tier):
     # a grid on which no two options that could be confused coincide (see gridlab.odd_spec)
     S.append(("rz", gridlab.odd_spec("lsn", True, extract=ex)))
     if tier == "thorough":
-        S += [("rz", gridlab.tokamak_spec("ldn", fpol="linear", options={"orthogonal": False}, extract=ex)),
+        S += [
               ("rz", gridlab.tokamak_spec("usn", fpol="negconst", extract=ex)),
               ("rz", gridlab.tokamak_spec("ldn", fpol="linear", options={"cap_Bp_ylow_xpoint": True, "orthogonal": False}, extract=ex)),
               ("rz", gridlab.tokamak_spec("cdn", fpol="const", options={"psi_interpolation_method": "dct"}, extract=ex)),
